@@ -225,6 +225,8 @@ class Engine:
         self.ad_vars = set()
         self.shard = None
         self.summarize_loops = False
+        self.fork_ptr_select = True
+        self.shard_forks = False
         self.pre_hooks = {}
         self.call_override = None
         self._ovr_cache = {}
@@ -1220,7 +1222,21 @@ class Engine:
         if t is False:
             self.goto(st, fr, ins.x[1])
             return
-        # both possible (or unknown): fork
+        # both possible (or unknown): fork  (sharded runs keep only their side at the first forks)
+        sh = st.user.get("shard", self.shard)
+        if sh is not None and sh[1] > 1 and self.shard_forks:
+            i, n = sh
+            g = i % 2
+            st.user["shard"] = (i // 2, len(range(g, n, 2)))
+            if g == 0:
+                st.assume(ce)
+                st.trace.append(fr.block.name)
+                self.goto(st, fr, ins.x[0])
+            else:
+                st.assume(z3.Not(ce))
+                st.trace.append("!" + fr.block.name)
+                self.goto(st, fr, ins.x[1])
+            return
         self.stats["forks"] += 1
         s2 = st.clone()
         s2.assume(z3.Not(ce))
@@ -1488,6 +1504,26 @@ class Engine:
             raise Inconclusive("select on undef")
         elif isinstance(c, list):
             r = [x if cc & 1 else y for cc, x, y in zip(c, a, b)]
+        elif self.fork_ptr_select and ins.ty.resolve().k == "ptr" and not (is_sym(a) or is_sym(b)) and a != b:
+            # choosing between two concrete pointers on a symbolic condition (tree descent): one path per choice
+            t = self.feasible(st, c.e)
+            f = self.feasible(st, z3.Not(c.e))
+            if t is False and f is False:
+                raise PathEnd("killed")
+            if f is False:
+                r = a
+            elif t is False:
+                r = b
+            else:
+                self.stats["forks"] += 1
+                s2 = st.clone()
+                s2.assume(z3.Not(c.e))
+                f2 = s2.frames[-1]
+                f2.locals[ins.dest] = b
+                f2.ip += 1
+                work.append(s2)
+                st.assume(c.e)
+                r = a
         else:
             r = self.ite(c.e, a, b, ins.ty)
         fr.locals[ins.dest] = r
